@@ -11,9 +11,27 @@ BIN = os.path.join(BUILD, "htsim.test")
 RACE_BIN = os.path.join(BUILD, "htsim.race.test")
 TEMPLATE = os.path.join(BUILD, "datadir-template")
 NCPU = min(16, os.cpu_count() or 4)
+# where evidence and replay files go (mutant trials are redirected so that they do not clobber the real ones)
+OUTDIR = os.environ.get("VERIF_OUT_DIR") or VERIF
 
 sys.path.insert(0, HERE)
 import props  # per-property settings
+
+_children = set()
+
+def _kill_children(*_a):
+    for p in list(_children):
+        try:
+            p.kill()
+        except Exception:
+            pass
+    if _a:
+        os._exit(2)
+
+import atexit
+atexit.register(_kill_children)
+signal.signal(signal.SIGTERM, _kill_children)
+signal.signal(signal.SIGINT, _kill_children)
 
 def log(*a):
     print(*a, file=sys.stderr, flush=True)
@@ -96,6 +114,7 @@ class Worker:
         self.errf = open(self.err, "w")
         self.proc = subprocess.Popen([self.binpath, "-test.run", "^TestWorker$", "-test.timeout", "0"], env=env,
                                      stdout=subprocess.DEVNULL, stderr=self.errf, cwd=self.logdir)
+        _children.add(self.proc)
         self.pos = 0
         self.last_progress = time.time()
         self.last_cpu = 0.0
@@ -170,6 +189,39 @@ def crash_excerpt(data, n=6000):
         return data[m.start():m.start() + n]
     return data[-n:]
 
+def classify_idle_hang(dump):
+    """A worker that sits idle inside a run: synctest.Wait never returns when a goroutine of the bubble is
+    blocked on a sync.Mutex/RWMutex (not a durable block).  If the dump shows a goroutine with honeytrap
+    frames waiting for a lock, that is a deadlock in honeytrap (kind, site); otherwise None (infrastructure)."""
+    for block in dump.split("\n\n"):
+        head = block.split("\n", 1)[0]
+        if "synctest bubble" not in head:
+            continue
+        if not re.search(r"\[(sync\.(RW)?Mutex\.(R?Lock)|semacquire)", head):
+            continue
+        for m in re.finditer(r"^(github\.com/honeytrap/honeytrap/\S+)\(", block, re.M):
+            site = re.sub(r"\.func\d+(\.\d+)*$", "", m.group(1).replace("github.com/honeytrap/honeytrap/", ""))
+            return "blocked-forever-on-lock", site, block[:1500]
+    return None
+
+def quit_and_dump(proc, errpath):
+    """SIGQUIT makes the Go runtime print every goroutine; returns the dump text"""
+    try:
+        proc.send_signal(signal.SIGQUIT)
+        proc.wait(timeout=20)
+    except Exception:
+        try:
+            proc.kill()
+            proc.wait()
+        except Exception:
+            pass
+    try:
+        data = open(errpath, errors="replace").read()
+    except Exception:
+        return ""
+    i = data.rfind("SIGQUIT")
+    return data[i:] if i >= 0 else data[-200000:]
+
 def banner_site(stderr):
     """kind and top honeytrap frame of a Go crash banner"""
     kind = "process-died"
@@ -219,6 +271,7 @@ def run_single(prop, scenario, tier="quick", binpath=None, timeout=None, extra_e
         with open(errp, "w") as ef:
             p = subprocess.Popen([binpath, "-test.run", "^TestWorker$", "-test.timeout", "0"], env=env, cwd=d,
                                  stdout=subprocess.DEVNULL, stderr=ef)
+            _children.add(p)
             t_start = time.time()
             verdict = None
             while p.poll() is None:
@@ -229,6 +282,15 @@ def run_single(prop, scenario, tier="quick", binpath=None, timeout=None, extra_e
                     rss = int(f[21]) * os.sysconf("SC_PAGE_SIZE") / (1 << 20)
                 except Exception:
                     cpu, rss = 0, 0
+                wall = time.time() - t_start
+                if wall > cfgp.get("idle_s", 45) and cpu < 0.05 * wall and os.path.exists(out) and '"begin"' in open(out).read() and '"end"' not in open(out).read():
+                    ef.flush()
+                    dump = quit_and_dump(p, errp)
+                    _children.discard(p)
+                    cls = classify_idle_hang(dump)
+                    if cls is None:
+                        return {"verdict": "infra", "kind": "hang", "site": props.site_of(scenario), "detail": "single run idle for %ds\n%s" % (int(wall), dump[:1500])}
+                    return {"verdict": "violation", "kind": cls[0], "site": cls[1], "detail": cls[2]}
                 if rss > rss_limit:
                     verdict = ("runaway-handler", "process RSS reached %d MiB during one run" % rss)
                 elif cpu > cpu_limit:
@@ -240,6 +302,7 @@ def run_single(prop, scenario, tier="quick", binpath=None, timeout=None, extra_e
                     p.wait()
                     break
             rc = p.returncode
+            _children.discard(p)
         stderr = crash_excerpt(open(errp, errors="replace").read())
         if verdict:
             if verdict[0] == "hang":
@@ -269,7 +332,7 @@ def fingerprint(res):
 
 def candidates(sc):
     """yield simpler scenarios, roughly biggest simplification first"""
-    acts = sc.get("actors", [])
+    acts = sc.get("actors") or []
     if len(acts) > 1:
         for i in range(len(acts)):
             c = copy.deepcopy(sc)
@@ -491,23 +554,37 @@ def main():
             if rc is None:
                 alive = True
                 now = time.time()
-                if now - w.last_progress > stall_s:
+                idle_s = cfg.get("idle_s", 45)
+                spun_now = w.cpu() - w.cpu_at_progress
+                if (now - w.last_progress > stall_s and spun_now > 0.5 * stall_s) or (now - w.last_progress > idle_s and spun_now < 0.05 * (now - w.last_progress) and w.open_idx is not None):
                     cpu = w.cpu()
                     spun = cpu - w.cpu_at_progress
-                    w.kill()
-                    w.poll()
-                    if w.open_idx is None:
-                        infra("worker %d stalled outside a run (cpu %.1fs)" % (w.wid, spun))
                     if spun > 0.5 * stall_s:
+                        w.kill()
+                        w.poll()
+                        if w.open_idx is None:
+                            infra("worker %d stalled outside a run (cpu %.1fs)" % (w.wid, spun))
                         died.append((w, w.open_idx, w.open_seed, "runaway-handler", "worker consumed %.0f CPU-seconds in one step without quiescing" % spun))
                     else:
-                        died.append((w, w.open_idx, w.open_seed, "hang", "worker made no progress for %ds using %.1f CPU-seconds\n%s" % (stall_s, spun, w.stderr_tail(1500))))
+                        w.errf.flush()
+                        dump = quit_and_dump(w.proc, w.err)
+                        w.poll()
+                        cls = classify_idle_hang(dump)
+                        if w.open_idx is None:
+                            infra("worker %d hung outside a run" % w.wid)
+                        if cls is None:
+                            died.append((w, w.open_idx, w.open_seed, "hang", "worker made no progress for %ds using %.1f CPU-seconds\n%s" % (int(now - w.last_progress), spun, dump[:1500])))
+                        else:
+                            died.append((w, w.open_idx, w.open_seed, "lock:" + cls[1], cls[2]))
                     nxt = w.open_idx + w.stride
                     w.open_idx = None
                     if nxt < w.hi:
                         w.start(nxt)
                     else:
                         w.done = True
+                elif now - w.last_progress > 4 * stall_s and w.open_idx is None:
+                    w.kill()
+                    infra("worker %d stalled outside a run" % w.wid)
                 elif w.rss_mb() > cfg.get("rss_mb", 3000):
                     rss = w.rss_mb()
                     w.kill()
@@ -571,6 +648,8 @@ def main():
         sc = emit_scenario(prop, tier, w.base, idx, w.binpath, cfg.get("env"))
         if why == "died":
             kind, site, _ = banner_site(text)
+        elif why.startswith("lock:"):
+            kind, site = "blocked-forever-on-lock", why[5:]
         else:
             kind, site = why, props.site_of(sc)
         res = {"verdict": "violation", "kind": kind, "site": site or props.site_of(sc), "detail": text[:2500], "seed": sd, "idx": idx, "class": sc.get("class")}
@@ -583,6 +662,7 @@ def main():
         add_cand(res, sc, race=(w.wid >= 100))
 
     reported = []
+    unattributed = []
     done_fps = set()
     for fp, (res, sc, race) in sorted(cands.items()):
         binp = RACE_BIN if race else BIN
@@ -596,6 +676,12 @@ def main():
                 log("note: fingerprint moved on confirmation: %s -> %s" % (fp, fp2))
                 fp = fp2
                 res = again
+            elif res.get("kind") == "runaway-handler" and "RSS" in (res.get("detail") or ""):
+                # the RSS of a worker is cumulative over its runs: a kill that does not reproduce alone is
+                # not attributable to this scenario (per-run heap growth is judged inside the worker)
+                log("note: RSS kill at idx=%s did not reproduce alone; not attributed" % res.get("idx"))
+                unattributed.append(res)
+                continue
             else:
                 infra("candidate violation did not reproduce in a fresh process: property=%s kind=%s site=%s seed=%s idx=%s\n%s" % (prop, res.get("kind"), res.get("site"), res.get("seed"), res.get("idx"), (res.get("detail") or "")[:1500]))
         if fp in done_fps:
@@ -610,8 +696,8 @@ def main():
             known_hits[e["id"]] += 1
             continue
         h = hashlib.sha1(("%s|%s|%s" % (prop, fp[0], fp[1])).encode()).hexdigest()[:10]
-        os.makedirs(os.path.join(VERIF, "replays"), exist_ok=True)
-        rp = os.path.join(VERIF, "replays", "%s-%s.json" % (prop, h))
+        os.makedirs(os.path.join(OUTDIR, "replays"), exist_ok=True)
+        rp = os.path.join(OUTDIR, "replays", "%s-%s.json" % (prop, h))
         json.dump({"engine_version": 1, "property": prop, "tier": tier, "seed": res.get("seed"), "idx": res.get("idx"),
                    "fingerprint": {"kind": fp[0], "site": fp[1]}, "traits": final.get("traits"), "detail": final.get("detail"),
                    "race": race, "minimise_runs": spent, "scenario": small}, open(rp, "w"), indent=1)
@@ -710,8 +796,8 @@ def write_evidence(prop, tier, seed, cfg, results, died, known, known_hits, repo
         "wall_s": round(wall, 1),
         "violations": len(reported),
     }
-    os.makedirs(os.path.join(VERIF, "evidence"), exist_ok=True)
-    p = os.path.join(VERIF, "evidence", "%s.json" % prop)
+    os.makedirs(os.path.join(OUTDIR, "evidence"), exist_ok=True)
+    p = os.path.join(OUTDIR, "evidence", "%s.json" % prop)
     if len(nontriv) < 2 or runs < 1:
         # an evidence file that would not validate is infrastructure trouble, not a result
         json.dump(ev, open(p, "w"), indent=1)
